@@ -34,6 +34,13 @@ def run(chk, repo, tier):
     _skip_rule(chk, repo, 'C05-o')
     with chk.guard(['C05-e'], 'propagate._mask_shift'):
         X.mask_window_identities(chk, repo, 'C05-e')
+    # which samples a product, a window or an output plane keeps is decided by the extent predicates: a field whose extent
+    # touches the other one in a single row is still there (and so is its energy)
+    X.extent_identities(chk, repo, 'C05-e')
+    # ... and which samples of a pupil take part at all: every non-zero one (a mask that leaves out the negative samples of a
+    # signed amplitude leaves out their power)
+    from .extra_rules import mask_support_rule
+    mask_support_rule(chk, repo, 'C05-e')
     # the energy captured by a window is that of the samples the contract says are evaluated
     from .c02 import contracts
 
